@@ -515,32 +515,33 @@ theorem decDescs_error_struct (fuel : Nat) (buf : Bytes) (e : Err) (hf : buf.len
           exact ih rest (by omega) hr
     · cases h
 
-/-- the stream loop raises nothing but `struct.error` -/
-theorem decStreams_error_struct (fuel : Nat) (buf : Bytes) (e : Err) (hf : buf.length < fuel)
-    (h : decStreams fuel buf = .error e) : e = .struct := by
+/-- the stream loop cannot fail at all: its condition `len(stream_buf) > CRC_LEN` leaves at least the five bytes a stream
+    header needs -/
+theorem decStreams_total (fuel : Nat) (buf : Bytes) (hf : buf.length < fuel) : ∃ r, decStreams fuel buf = .ok r := by
   induction fuel generalizing buf with
   | zero => omega
   | succ fuel ih =>
-    unfold decStreams at h
-    split at h
-    · cases hd : Stream.unpack buf with
-      | error e' =>
-        simp only [hd, Except.error.injEq] at h
-        subst h
-        rcases Stream_unpack_outcomes buf with ⟨r, hr⟩ | hs
-        · rw [hd] at hr; cases hr
-        · rw [hd] at hs; cases hs; rfl
-      | ok r =>
-        obtain ⟨d, rest⟩ := r
-        simp only [hd] at h
-        have hs := Stream_unpack_shorter buf rest d hd
-        cases hr : decStreams fuel rest with
-        | ok ds => simp only [hr] at h; cases h
-        | error e' =>
-          simp only [hr, Except.error.injEq] at h
-          subst h
-          exact ih rest (by omega) hr
-    · cases h
+    unfold decStreams
+    by_cases hlt : Acra.Gen.PMT.PMT_CRC_LEN < buf.length
+    · rw [if_pos hlt]
+      simp only [Acra.Gen.PMT.PMT_CRC_LEN] at hlt
+      have hh : ∃ a b c, structUnpackFrom Acra.Gen.PMT.PMTStream_FMT buf 0 = .ok [a, b, c] := by
+        simp only [structUnpackFrom, Acra.Gen.PMT.PMTStream_FMT, Fmt.size, codesSize, Code.size, unpackCodes]
+        have : 0 + (1 + (2 + (2 + 0))) ≤ buf.length := by omega
+        simp only [this, if_true]
+        exact ⟨_, _, _, rfl⟩
+      obtain ⟨a, b, c, hh⟩ := hh
+      have hd : ∃ d rest, Stream.unpack buf = .ok (d, rest) := by
+        simp only [Stream.unpack, hh]
+        exact ⟨_, _, rfl⟩
+      obtain ⟨d, rest, hd⟩ := hd
+      have hs := Stream_unpack_shorter buf rest d hd
+      obtain ⟨r, hr⟩ := ih rest (by omega)
+      obtain ⟨ss, left⟩ := r
+      simp only [hd, hr]
+      exact ⟨_, rfl⟩
+    · rw [if_neg hlt]
+      exact ⟨_, rfl⟩
 
 /-- past the transport-packet layer only `struct.error` and `IndexError` are possible -/
 theorem PMT_unpack_after_pkt (t : PMT) (buf : Bytes) (h : (Pkt.unpack t.pkt buf).2 = .ok ()) :
@@ -559,8 +560,8 @@ theorem PMT_unpack_after_pkt (t : PMT) (buf : Bytes) (h : (Pkt.unpack t.pkt buf)
       | (rename_i e h; have := structUnpackFrom_error _ _ _ _ h; subst this; simp)
       | (rename_i e h; have := structUnpack_error _ _ _ h; subst this; simp)
       | (rename_i e h
-         have := decStreams_error_struct _ _ _ (by omega) h
-         subst this; simp)
+         obtain ⟨r, hr⟩ := decStreams_total _ _ (Nat.lt_succ_self _)
+         rw [hr] at h; cases h)
       | (rename_i e h
          split at h
          · have := decDescs_error_struct _ _ _ (by omega) h
@@ -657,7 +658,7 @@ theorem PMT_unpack_index_imp (t : PMT) (buf : Bytes) (h : (PMT.unpack t buf).2 =
                first
                  | (have := structUnpackFrom_error _ _ _ _ he; cases this)
                  | (have := structUnpack_error _ _ _ he; cases this)
-                 | (have := decStreams_error_struct _ _ _ (by omega) he; cases this)
+                 | (obtain ⟨r, hr⟩ := decStreams_total _ _ (Nat.lt_succ_self _); rw [hr] at he; cases he)
                  | (split at he
                     · have := decDescs_error_struct _ _ _ (by omega) he; cases this
                     · simp at he))
@@ -681,5 +682,13 @@ set_option maxRecDepth 20000 in
 example : (PMT.unpack PMT.fresh (wPMT.set 0 0x46)).2 = .error .generic := by rfl
 set_option maxRecDepth 20000 in
 example : (PMT.unpack PMT.fresh ((wPMT.set 6 0).set 7 1)).2 = .error .index := by rfl
+
+/-- joint witnesses for the helper lemmas above: a descriptor loop / stream loop that runs into a cut element with enough
+    fuel (`decDescs_error_struct`); the stream loop stops before a cut element (`decStreams_total`); `PMT_unpack_after_pkt`: `wPMT` passes the transport-packet layer -/
+example : ([5, 2, 1, 2, 6] : Bytes).length < 7 ∧ decDescs 7 [5, 2, 1, 2, 6] = .error .struct := ⟨by decide, rfl⟩
+example : ([27, 225, 0, 240, 0, 15, 225, 1, 240] : Bytes).length < 20 ∧
+    decStreams 20 [27, 225, 0, 240, 0, 15, 225, 1, 240] = .ok ([⟨27, 0x100, []⟩], [15, 225, 1, 240]) := ⟨by decide, rfl⟩
+set_option maxRecDepth 20000 in
+example : (Pkt.unpack PMT.fresh.pkt wPMT).2 = .ok () := by rfl
 
 end Acra.Props.C08
